@@ -33,6 +33,10 @@ func TestSweep(t *testing.T) {
 	defer func() { rec.Flush(!t.Failed()) }()
 	for _, e := range Pairs {
 		Oracle.One(t, env, rec, "sweep", &Case{S: e.S.Name, D: e.D.Name, Xs: vals(Bounds(e))})
+		Oracle.One(t, env, rec, "sweep", &Case{S: e.S.Name, D: e.D.Name, Xs: vals(Bounds(e)), Pad: 20000})
+		for _, x := range []float64{0.5, -0.5, 1, -1, 2, -2, 0} { // single-sample buffers
+			Oracle.One(t, env, rec, "sweep", &Case{S: e.S.Name, D: e.D.Name, Xs: vals([]float64{x})})
+		}
 		if e.S.Bits != 32 || !env.Thorough() {
 			continue
 		}
